@@ -823,16 +823,25 @@ class CompositeEnvelope:
                 composite_envelopes.append(e.composite_envelope)
 
         ce_container = None
+        merged_containers: List[CompositeEnvelopeContainer] = []
         for ce in composite_envelopes:
             assert isinstance(
                 ce, CompositeEnvelope
             ), "ce should be CompositeEnvelope type"
             state_objs.extend(ce.state_objs)
+            other_container = CompositeEnvelope._containers[ce.uid]
             if ce_container is None:
-                ce_container = CompositeEnvelope._containers[ce.uid]
-            elif CompositeEnvelope._containers[ce.uid] is not ce_container:
-                ce_container.append_states(CompositeEnvelope._containers[ce.uid])
+                ce_container = other_container
+            elif not any(other_container is c for c in merged_containers):
+                ce_container.append_states(other_container)
+            merged_containers.append(other_container)
             ce.uid = self.uid
+        # Every handle that pointed to one of the merged containers (also handles
+        # merged earlier, which keep an older uid) sees the merged container
+        for key, container in list(CompositeEnvelope._containers.items()):
+            if any(container is c for c in merged_containers):
+                assert ce_container is not None
+                CompositeEnvelope._containers[key] = ce_container
         if ce_container is None:
             ce_container = CompositeEnvelopeContainer(self.uid)
         for e in envelopes:
